@@ -33,7 +33,7 @@ SPEC = 'spec/timers'
 COARSE = (0.25, 4)          # the model's grid: unit 0.25 s, 4 units per second
 FINE = (1.0 / 1024, 1024)   # the fine-grained random runs: unit ~ 1 ms
 SILENT = ('tick', 'gbeg')   # informative lines the monitor does not look at: not sent to TLC
-VARIANTS = ['gt', 'addinterval', 'nopending', 'flip', 'slack']
+VARIANTS = ['gt', 'addinterval', 'nopending', 'flip', 'slack', 'stopsweep']
 ACTIONS = ['Create', 'CreateAt', 'Reset', 'Unregister', 'HandlerTime', 'FireOp', 'StartTask', 'Tick']
 
 
@@ -222,8 +222,20 @@ class World:
     def tick(self, grant, wake):
         self.tick_plan = (grant, wake)
         self.line('tick', 0, 0, 0)
+        start = len(self.log)
         self.root.tick()
         self.tick_plan = None
+        # a pass that began (observer of priority 1000) but never reached the observer of
+        # priority -50: some handler stopped the generate_events event, the handlers behind
+        # it (other timers, the fallback generator) were not polled in this iteration
+        began = None
+        for ln in self.log[start:]:
+            if ln['k'] == 'gbeg':
+                began = ln['now']
+            elif ln['k'] == 'gend':
+                began = None
+        if began is not None:
+            self.log.append(L('gcut', 0, 0, 0, began))
 
     def in_tree(self, t):
         tm = self.timers[t]
